@@ -43,33 +43,37 @@ Definition cpio_precheck (need_size_for_hardlink : bool) (e : entry) : bool :=
 Definition sym_of (e : entry) : list Z := if is_some (e_sym e) then ob (e_sym e) else [].
 
 (* ------------------------------------------------------------------ odc *)
+Definition body_size (e : entry) : Z := if filetype e =? IFREG then size_of e else 0.
+Definition pathlength_of (e : entry) : Z := s32 (lenZ (ob (e_path e))) + 1.
+
+(* the value stored in the filesize field and the formatter's result for it *)
+Definition odc_filesize (e : entry) : Z * list Z :=
+  if (0 <? length (sym_of e))%nat then odc_format_octal (lenZ (sym_of e)) ODC_c_filesize_size
+  else odc_format_octal (body_size e) ODC_c_filesize_size.
+
+(* the field writes of write_header over the memset-0 block, in the order of the C statements *)
+Definition odc_fields (ino : Z) (e : entry) : list wr :=
+  [(ODC_c_magic_offset, snd (odc_format_octal 29127 ODC_c_magic_size));
+   (ODC_c_dev_offset, snd (odc_format_octal (s64 (e_dev e)) ODC_c_dev_size));
+   (ODC_c_ino_offset, snd (odc_format_octal (Z.land ino 262143) ODC_c_ino_size));
+   (ODC_c_mode_offset, snd (odc_format_octal (e_mode e) ODC_c_mode_size));
+   (ODC_c_uid_offset, snd (odc_format_octal (e_uid e) ODC_c_uid_size));
+   (ODC_c_gid_offset, snd (odc_format_octal (e_gid e) ODC_c_gid_size));
+   (ODC_c_nlink_offset, snd (odc_format_octal (e_nlink e) ODC_c_nlink_size));
+   (ODC_c_rdev_offset, snd (odc_format_octal (if is_dev e then s64 (e_rdev e) else 0) ODC_c_rdev_size));
+   (ODC_c_mtime_offset, snd (odc_format_octal (e_mtime e) ODC_c_mtime_size));
+   (ODC_c_namesize_offset, snd (odc_format_octal (pathlength_of e) ODC_c_namesize_size));
+   (ODC_c_filesize_offset, snd (odc_filesize e))].
+
+Definition odc_block (ino : Z) (e : entry) : list Z := apply_writes (odc_fields ino e) (zeros 76).
+
 (* write_header: (state, status, bytes written by the call, entry_bytes_remaining) *)
 Definition odc_write_header (st : cpio_state) (e : entry) : cpio_state * Z * list Z * Z :=
-  let path := ob (e_path e) in
-  let pathlength := s32 (lenZ path) + 1 in
-  let h := zeros 76 in
-  let h := put ODC_c_magic_offset (snd (odc_format_octal 29127 ODC_c_magic_size)) h in
-  let h := put ODC_c_dev_offset (snd (odc_format_octal (s64 (e_dev e)) ODC_c_dev_size)) h in
   let '(st, ino) := synthesize_ino st e in
   if ino <? 0 then (st, ST_FATAL, [], 0)
   else if 262143 <? ino then (st, ST_FATAL, [], 0)
-  else
-  let h := put ODC_c_ino_offset (snd (odc_format_octal (Z.land ino 262143) ODC_c_ino_size)) h in
-  let h := put ODC_c_mode_offset (snd (odc_format_octal (e_mode e) ODC_c_mode_size)) h in
-  let h := put ODC_c_uid_offset (snd (odc_format_octal (e_uid e) ODC_c_uid_size)) h in
-  let h := put ODC_c_gid_offset (snd (odc_format_octal (e_gid e) ODC_c_gid_size)) h in
-  let h := put ODC_c_nlink_offset (snd (odc_format_octal (e_nlink e) ODC_c_nlink_size)) h in
-  let isdev := (filetype e =? IFBLK) || (filetype e =? IFCHR) in
-  let h := put ODC_c_rdev_offset (snd (odc_format_octal (if isdev then s64 (e_rdev e) else 0) ODC_c_rdev_size)) h in
-  let h := put ODC_c_mtime_offset (snd (odc_format_octal (e_mtime e) ODC_c_mtime_size)) h in
-  let h := put ODC_c_namesize_offset (snd (odc_format_octal pathlength ODC_c_namesize_size)) h in
-  let size := if filetype e =? IFREG then size_of e else 0 in
-  let p := sym_of e in
-  let '(r, b) := if (0 <? length p)%nat then odc_format_octal (lenZ p) ODC_c_filesize_size
-                 else odc_format_octal size ODC_c_filesize_size in
-  let h := put ODC_c_filesize_offset b h in
-  if negb (r =? 0) then (st, ST_FAILED, [], 0)
-  else (st, ST_OK, h ++ path ++ [0] ++ p, size).
+  else if negb (fst (odc_filesize e) =? 0) then (st, ST_FAILED, [], 0)
+  else (st, ST_OK, odc_block ino e ++ ob (e_path e) ++ [0] ++ sym_of e, body_size e).
 
 Definition odc_entry (full : bool) (st : cpio_state) (e : entry) : cpio_state * ewrite :=
   if negb (cpio_precheck true e) then (st, mkEw ST_FAILED [] 0 [] 0)
@@ -86,36 +90,37 @@ Definition odc_close (st : cpio_state) : Z * list Z :=
   let '(_, ret, out, _) := odc_write_header st trailer_entry in (ret, out).
 
 (* ------------------------------------------------------------------ newc *)
+Definition newc_filesize (e : entry) : Z * list Z :=
+  if (0 <? length (sym_of e))%nat then newc_format_hex (lenZ (sym_of e)) NEWC_c_filesize_size
+  else newc_format_hex (body_size e) NEWC_c_filesize_size.
+
+Definition newc_fields (e : entry) : list wr :=
+  [(NEWC_c_magic_offset, snd (newc_format_hex 460545 NEWC_c_magic_size));
+   (NEWC_c_devmajor_offset, snd (newc_format_hex (dev_major (e_dev e)) NEWC_c_devmajor_size));
+   (NEWC_c_devminor_offset, snd (newc_format_hex (dev_minor (e_dev e)) NEWC_c_devminor_size));
+   (NEWC_c_ino_offset, snd (newc_format_hex (Z.land (e_ino e) 4294967295) NEWC_c_ino_size));
+   (NEWC_c_mode_offset, snd (newc_format_hex (e_mode e) NEWC_c_mode_size));
+   (NEWC_c_uid_offset, snd (newc_format_hex (e_uid e) NEWC_c_uid_size));
+   (NEWC_c_gid_offset, snd (newc_format_hex (e_gid e) NEWC_c_gid_size));
+   (NEWC_c_nlink_offset, snd (newc_format_hex (e_nlink e) NEWC_c_nlink_size));
+   (NEWC_c_rdevmajor_offset, snd (newc_format_hex (if is_dev e then dev_major (e_rdev e) else 0) NEWC_c_rdevmajor_size));
+   (NEWC_c_rdevminor_offset, snd (newc_format_hex (if is_dev e then dev_minor (e_rdev e) else 0) NEWC_c_rdevminor_size));
+   (NEWC_c_mtime_offset, snd (newc_format_hex (e_mtime e) NEWC_c_mtime_size));
+   (NEWC_c_namesize_offset, snd (newc_format_hex (pathlength_of e) NEWC_c_namesize_size));
+   (NEWC_c_checksum_offset, snd (newc_format_hex 0 NEWC_c_checksum_size));
+   (NEWC_c_filesize_offset, snd (newc_filesize e))].
+
+Definition newc_block (e : entry) : list Z := apply_writes (newc_fields e) (zeros NEWC_c_header_size).
+
 Definition newc_write_header (e : entry) : Z * list Z * Z :=
-  let path := ob (e_path e) in
-  let pathlength := s32 (lenZ path) + 1 in
-  let h := zeros NEWC_c_header_size in
-  let h := put NEWC_c_magic_offset (snd (newc_format_hex 460545 NEWC_c_magic_size)) h in
-  let h := put NEWC_c_devmajor_offset (snd (newc_format_hex (dev_major (e_dev e)) NEWC_c_devmajor_size)) h in
-  let h := put NEWC_c_devminor_offset (snd (newc_format_hex (dev_minor (e_dev e)) NEWC_c_devminor_size)) h in
-  let ino := e_ino e in
-  let ret := pick (4294967295 <? ino) ST_WARN ST_OK in
-  let h := put NEWC_c_ino_offset (snd (newc_format_hex (Z.land ino 4294967295) NEWC_c_ino_size)) h in
-  let h := put NEWC_c_mode_offset (snd (newc_format_hex (e_mode e) NEWC_c_mode_size)) h in
-  let h := put NEWC_c_uid_offset (snd (newc_format_hex (e_uid e) NEWC_c_uid_size)) h in
-  let h := put NEWC_c_gid_offset (snd (newc_format_hex (e_gid e) NEWC_c_gid_size)) h in
-  let h := put NEWC_c_nlink_offset (snd (newc_format_hex (e_nlink e) NEWC_c_nlink_size)) h in
-  let isdev := (filetype e =? IFBLK) || (filetype e =? IFCHR) in
-  let h := put NEWC_c_rdevmajor_offset (snd (newc_format_hex (if isdev then dev_major (e_rdev e) else 0) NEWC_c_rdevmajor_size)) h in
-  let h := put NEWC_c_rdevminor_offset (snd (newc_format_hex (if isdev then dev_minor (e_rdev e) else 0) NEWC_c_rdevminor_size)) h in
-  let h := put NEWC_c_mtime_offset (snd (newc_format_hex (e_mtime e) NEWC_c_mtime_size)) h in
-  let h := put NEWC_c_namesize_offset (snd (newc_format_hex pathlength NEWC_c_namesize_size)) h in
-  let h := put NEWC_c_checksum_offset (snd (newc_format_hex 0 NEWC_c_checksum_size)) h in
-  let size := if filetype e =? IFREG then size_of e else 0 in
-  let p := sym_of e in
-  let '(r, b) := if (0 <? length p)%nat then newc_format_hex (lenZ p) NEWC_c_filesize_size
-                 else newc_format_hex size NEWC_c_filesize_size in
-  let h := put NEWC_c_filesize_offset b h in
-  if negb (r =? 0) then (ST_FAILED, [], 0)
+  let ret := pick (4294967295 <? e_ino e) ST_WARN ST_OK in
+  if negb (fst (newc_filesize e) =? 0) then (ST_FAILED, [], 0)
   else
-    let out := h ++ path ++ [0] ++ zeros (Z.to_nat (pad_to 4 (pathlength + Z.of_nat NEWC_c_header_size))) in
+    let p := sym_of e in
+    let out := newc_block e ++ ob (e_path e) ++ [0]
+               ++ zeros (Z.to_nat (pad_to 4 (pathlength_of e + Z.of_nat NEWC_c_header_size))) in
     let out := if (0 <? length p)%nat then out ++ p ++ zeros (Z.to_nat (pad_to 4 (lenZ p))) else out in
-    (ret, out, size).
+    (ret, out, body_size e).
 
 Definition newc_entry (full : bool) (e : entry) : ewrite :=
   if negb (cpio_precheck false e) then mkEw ST_FAILED [] 0 [] 0
@@ -132,30 +137,29 @@ Definition newc_close : Z * list Z :=
   let '(ret, out, _) := newc_write_header trailer_entry in (ret, out).
 
 (* ------------------------------------------------------------------ binary (bin = 7th edition, pwb) *)
+Definition bin_block (ino : Z) (e : entry) : list Z :=
+  let p := sym_of e in
+  let fsz := if (0 <? length p)%nat then lenZ p else body_size e in
+  bin16 29127 ++ bin16 (e_dev e) ++ bin16 ino ++ bin16 (u16 (e_mode e)) ++ bin16 (e_uid e) ++ bin16 (e_gid e)
+  ++ bin16 (e_nlink e) ++ (if is_dev e then bin16 (e_rdev e) else [0; 0])
+  ++ bin32 (e_mtime e) ++ bin16 (pathlength_of e) ++ bin32 fsz.
+
 Definition bin_write_header (pwb : bool) (st : cpio_state) (e : entry) : cpio_state * Z * list Z * Z :=
-  let path := ob (e_path e) in
-  let pathlength := s32 (lenZ path) + 1 in
   let '(st, ino) := synthesize_ino st e in
   if ino <? 0 then (st, ST_FATAL, [], 0)
   else if 32767 <? ino then (st, ST_FATAL, [], 0)
   else
-  let hmode := u16 (e_mode e) in
-  let hft := Z.land hmode IFMT in
+  let hft := Z.land (u16 (e_mode e)) IFMT in
   if (hft =? IFSOCK) || (hft =? IFIFO) then (st, ST_FATAL, [], 0)
   else if pwb && (hft =? IFLNK) then (st, ST_FATAL, [], 0)
   else
-  let isdev := (filetype e =? IFBLK) || (filetype e =? IFCHR) in
-  let size := if filetype e =? IFREG then size_of e else 0 in
+  let size := body_size e in
   let p := sym_of e in
   if (0 <? length p)%nat && pwb then (st, ST_FATAL, [], 0)
   else if negb (0 <? length p)%nat && pwb && (16777215 <? size) then (st, ST_FAILED, [], 0)
   else if negb (0 <? length p)%nat && (2147483647 <? size) then (st, ST_FAILED, [], 0)
   else
-  let fsz := if (0 <? length p)%nat then lenZ p else size in
-  let h := bin16 29127 ++ bin16 (e_dev e) ++ bin16 ino ++ bin16 hmode ++ bin16 (e_uid e) ++ bin16 (e_gid e)
-           ++ bin16 (e_nlink e) ++ (if isdev then bin16 (e_rdev e) else [0; 0])
-           ++ bin32 (e_mtime e) ++ bin16 pathlength ++ bin32 fsz in
-  let out := h ++ path ++ [0] ++ (if Z.odd pathlength then [0] else []) in
+  let out := bin_block ino e ++ ob (e_path e) ++ [0] ++ (if Z.odd (pathlength_of e) then [0] else []) in
   let out := if (0 <? length p)%nat then out ++ p ++ (if Z.odd (lenZ p) then [0] else []) else out in
   (st, ST_OK, out, if Z.odd size then size + 1 else size).
 
